@@ -15,6 +15,10 @@ pub type BoxFut = Pin<Box<dyn Future<Output = ()> + Send + 'static>>;
 pub trait Backend {
     fn spawn(&self, fut: BoxFut);
     fn sleep(&self, d: Duration) -> BoxFut;
+    /// whether `sync_point` yields to the backend
+    fn preemption_points(&self) -> bool {
+        true
+    }
 }
 
 thread_local! {
@@ -33,7 +37,7 @@ fn backend() -> Option<Rc<dyn Backend>> {
 /// A point at which the installed backend may run another task: models the preemption of a
 /// thread that holds a lock.  Without an installed backend it returns at once.
 pub async fn sync_point() {
-    if backend().is_some() {
+    if backend().is_some_and(|b| b.preemption_points()) {
         YieldOnce(false).await
     }
 }
